@@ -91,6 +91,7 @@ type Path struct {
 	freshN   int
 	Ghost    map[string]Val
 	Out      []Str // captured stdout writes
+	OutFmt   []string // the literal formats of the fmt.Printf calls, in order
 	NoSafety bool
 	Trace    []string
 	Depth    int
